@@ -136,9 +136,9 @@ Theorem C17_dispatch_refuted : exists k, In k all_kinds /\ dispatch_handled k = 
 Proof. exact dispatch_refuted. Qed.
 Print Assumptions C17_dispatch_refuted.
 
-(** ... and it is the only one; every command returned by the modelled parsers has an arm. *)
+(** ... and it is the only one; every command returned by the modelled parsers, except a batch, has an arm. *)
 Theorem C17_dispatch_outside_known :
   (forall k, k <> KBatch -> dispatch_handled k = true) /\
-  (forall fx s c, parse_command fx s = POk c -> dispatch_handled (kind_of c) = true).
+  (forall fx s c, parse_command fx s = POk c -> is_batch c = false -> dispatch_handled (kind_of c) = true).
 Proof. exact (conj dispatch_others_handled parsed_commands_dispatched). Qed.
 Print Assumptions C17_dispatch_outside_known.
